@@ -317,8 +317,8 @@ def _docwriter(role: str) -> Callable[[str], str]:
 #   kind 'block'   : fragment = the whole docstring around the text; pre/post are read from the sentinel render
 #   kind 'docw'    : DocumentationWriter output (relational model)
 #   kind 'comment' : fragment = "  # …" to the end of the output line
-# F15a-k are FIXED in /repo: a failure at those sites is a VIOLATION.  Still open: F15l (enum-typed default, bit 12)
-FIND = {"F15l": 12}
+# F15a-l are FIXED in /repo: a failure at any text site is a VIOLATION
+FIND: dict[str, int] = {}
 SITES: dict[str, dict] = {
     "enum_value":     {"n": 1, "kind": "dq", "f": "F15a", "r": r_enum_value},
     "meta_key":       {"n": 2, "kind": "dq", "f": "F15b", "r": r_meta_key},
@@ -336,7 +336,7 @@ SITES: dict[str, dict] = {
     "default_bool":   {"n": 8, "kind": "dq", "f": "F15h", "r": _typed_default("boolean")},
     "default_notype": {"n": 8, "kind": "dq", "f": "F15h", "r": _typed_default(None)},
     "default_named_obj": {"n": 8, "kind": "dq", "f": "F15h", "r": _typed_default("object", "Thing")},
-    "enum_default":   {"n": 17, "kind": "ident", "f": "F15l", "r": r_enum_default},
+    "enum_default":   {"n": 17, "kind": "dq", "f": None, "r": r_enum_default},
     "alias_doc":      {"n": 9, "kind": "doc", "f": "F15c", "r": r_alias_doc, "lead": len('"""Alias for '), "trail": 3, "skip_empty": True},
     "field_comment":  {"n": 10, "kind": "comment", "f": "F15e", "r": r_field_comment(False), "skip_empty": True},
     "field_comment_opt": {"n": 10, "kind": "comment", "f": "F15e", "r": r_field_comment(True), "skip_empty": True},
@@ -623,22 +623,15 @@ POSITIONS: dict[str, dict] = {
     "aliasdefault": {"value": True, "sites": [8]},
     "darr":      {"value": False, "sites": []},
     "pdefault":  {"value": False, "sites": []},
-    "enumdefault": {"value": False, "sites": [17]},
+    "enumdefault": {"value": True, "sites": [17]},
     "discprop":  {"value": True, "sites": [3]},
     "discval":   {"value": True, "sites": [4]},
 }
 def sites_for(pos: str, t: str) -> list[int]:
-    """model sites fed by a position; the enum-typed default becomes an identifier: for non-ASCII text the model takes
-    Python's own verdict on `C.<TEXT.upper()>` (18 = one attribute name, 19 = not) instead of computing it (17)"""
-    if pos == "enumdefault" and not t.isascii():
-        m = _parse_ok("X = C." + t.upper().replace("-", "_").replace(" ", "_") + "\n")
-        good = m is not None and len(m.body) == 1 and isinstance(m.body[0], ast.Assign) and isinstance(m.body[0].value, ast.Attribute) \
-            and isinstance(m.body[0].value.value, ast.Name)
-        return [18 if good else 19]
     return POSITIONS[pos]["sites"]
 
 
-SITE_FINDING = {17: "F15l", 18: "F15l", 19: "F15l"}
+SITE_FINDING: dict[int, str] = {}
 
 
 def skeleton(tree: ast.AST) -> str:
@@ -698,7 +691,7 @@ def baseline() -> dict:
     return _BASELINE
 
 
-NAME_POSITIONS = {"tag", "qname", "hname", "propname", "enumval", "discval", "enumdefault"}
+NAME_POSITIONS = {"tag", "qname", "hname", "propname", "enumval", "discval"}
 # positions whose text is ALSO turned into an identifier / sort key by the generator: the payload is prefixed with "zq" so
 # that name derivation (property C20) yields a non-empty name sorting where the baseline's does; C15 is about the text sites
 
@@ -911,10 +904,6 @@ def main(chk: Check, replay: dict | None = None) -> int:
     # \N{name} escapes: the lexer model answers "error" by design (no Unicode name table), CPython accepts valid names;
     # such payloads are exercised at site level (string equality) but not in the predicted-verdict relation
     pipe_inputs = list(dict.fromkeys(p for p in pipe_inputs if p[1] != "" and "\\N{" not in p[1]))
-    # enum-typed default: a text ENDING in backslash / CR / LF loses that tail (and the line's trailing comment) between
-    # _get_field_default and the emitted file (step not located, harmless: the oracle passes); the site function is still
-    # compared on such texts at site level, only the predicted-verdict relation skips them
-    pipe_inputs = [p for p in pipe_inputs if not (p[0] == "enumdefault" and p[1][-1] in "\\\r\n")]
     pipe_cases = pstarmap(run_pipeline, pipe_inputs)
     codes = None
     if chk.model_ok:
